@@ -89,7 +89,11 @@ func evalLet(
 			}
 			subst = subst.Extend(*stmt.Var, con)
 		}
-		emit(head.ApplySubst(subst).(ast.Atom), TransformKindLet, nil, nil)
+		out, err := functional.EvalAtom(head.ApplySubst(subst).(ast.Atom), subst)
+		if err != nil {
+			return err
+		}
+		emit(out, TransformKindLet, nil, nil)
 	}
 	return nil
 }
